@@ -34,7 +34,7 @@ ASSUMPTIONS = [
     "amounts <= 11 decimals (R1); optional crypto_out_with_fee consistent with amount + fee when present (R4)",
 ]
 
-CFG = gen.GenCfg(min_steps=2, max_steps=14)
+CFG = gen.GenCfg(min_steps=2, max_steps=14, shared_uid_prob=0.05)
 VARIANTS = ["plain", "plain", "overspend", "overspend_refill", "liquidate_later", "liquidate_tie"]
 
 
